@@ -1,4 +1,4 @@
-import Proofs.XfrConv
+import Proofs.XfrFault
 /-!
 # C13 — Inbound AXFR/IXFR converges to the server's zone or leaves the zone untouched
 
@@ -12,16 +12,6 @@ Zones are compared as sets of records (`≃z`).
 -/
 namespace C13
 open Model.Xfr
-
-/-- a result that raised nothing is the same in both variants -/
-private theorem both_variants {c : Config} {z0 : Zone} {msgs : List Msg} {z : Zone}
-    (h : run false c z0 msgs = ⟨none, z⟩) (fix : Bool) : run fix c z0 msgs = ⟨none, z⟩ := by
-  cases fix with
-  | false => exact h
-  | true =>
-    rcases run_variants c z0 msgs with e | ⟨e, _⟩
-    · rw [← e]; exact h
-    · rw [h] at e; cases e
 
 /-- **AXFR converges.**  "Feeding an inbound transfer any valid AXFR … response stream (… any division of
 the record stream into messages) leaves the zone equal to the server's target version with its serial."
@@ -78,9 +68,9 @@ theorem axfr_style_ixfr (fix : Bool) (o : Name) (v : Version) (z0 : Zone) (b : N
 
 /-- **The already-up-to-date answer** leaves the zone as it is and raises nothing (TCP or UDP). -/
 theorem up_to_date_noop (fix : Bool) (o : Name) (z0 : Zone) (d : Rdata) (udp : Bool) (m : Msg) (more : List Msg)
-    (hr : m.rcode = 0) (hq : m.question = []) (ha : m.answer = [soaRR o d]) :
+    (hh : headerErrOf o ixfrType m = none) (ha : m.answer = [soaRR o d]) :
     run fix ⟨some o, ixfrType, some d.serial, udp⟩ z0 (m :: more) = ⟨none, z0⟩ :=
-  uptodate_run fix o z0 d udp m more hr hq ha
+  uptodate_run fix o z0 d udp m more hh ha
 
 /-- **UDP IXFR**: the whole response in one datagram converges like the TCP one. -/
 theorem udp_ixfr (fix : Bool) (o : Name) (v0 : Version) (vs : List Version) (z0 : Zone) (m : Msg)
@@ -112,17 +102,17 @@ theorem udp_ixfr (fix : Bool) (o : Name) (v0 : Version) (vs : List Version) (z0 
 
 /-- **UseTCP**: the truncated UDP answer (a lone, newer SOA) raises `UseTCP`; the zone is as it was. -/
 theorem fault_use_tcp (fix : Bool) (o : Name) (z0 : Zone) (d : Rdata) (b : Nat) (m : Msg) (more : List Msg)
-    (hr : m.rcode = 0) (hq : m.question = []) (ha : m.answer = [soaRR o d])
+    (hh : headerErrOf o ixfrType m = none) (ha : m.answer = [soaRR o d])
     (hs1 : d.serial ≠ b) (hs2 : serialLt d.serial b = false) :
     run fix ⟨some o, ixfrType, some b, true⟩ z0 (m :: more) = ⟨some .UseTCP, z0⟩ :=
-  udp_truncated_run fix o z0 d b m more hr hq ha hs1 hs2
+  udp_truncated_run fix o z0 d b m more hh ha hs1 hs2
 
 /-- **Serial going backwards** (RFC 1982): raises `SerialWentBackwards`, whatever follows; zone as it was. -/
 theorem fault_backwards_serial (fix : Bool) (o : Name) (z0 : Zone) (d : Rdata) (b : Nat) (udp : Bool) (m : Msg)
-    (rest : List RRset) (more : List Msg) (hr : m.rcode = 0) (hq : m.question = [])
+    (rest : List RRset) (more : List Msg) (hh : headerErrOf o ixfrType m = none)
     (ha : m.answer = soaRR o d :: rest) (hs1 : d.serial ≠ b) (hs2 : serialLt d.serial b = true) :
     run fix ⟨some o, ixfrType, some b, udp⟩ z0 (m :: more) = ⟨some .SerialWentBackwards, z0⟩ :=
-  backwards_run fix o z0 d b udp m rest more hr hq ha hs1 hs2
+  backwards_run fix o z0 d b udp m rest more hh ha hs1 hs2
 
 /-- **An error is never reported for a transfer that was applied** — repaired variant, every configuration,
 every sequence of messages whatsoever (valid, faulty, adversarial): if anything is raised, the zone is
@@ -186,6 +176,230 @@ theorem surplus_after_final_soa_as_shipped (o : Name) (v : Version) (z0 : Zone) 
     cases hr' : run true ⟨some o, axfrType, ser, false⟩ z0 [m] with
     | mk err zone => rw [hr'] at he hz0; simp at he hz0; rw [he, hz0]
   · exact ht
+
+/-! ## explicit fault transformers on accepted streams
+
+`Accepted c z0 recs`: the machine, fed `recs` flat over TCP, completes.  Every valid stream is accepted
+(`axfr_accepted`, `ixfr_accepted`, `axfr_style_accepted`), so the theorems below speak about every valid
+AXFR, IXFR and AXFR-style stream, every division into messages, and the fault at every position. -/
+
+theorem axfr_accepted (o : Name) (v : Version) (z0 : Zone) (ser : Option Nat) (hb : BodyOk o v.body) :
+    Accepted ⟨some o, axfrType, ser, false⟩ z0 (axfrStream o v) := by
+  obtain ⟨s', hf, hd, _⟩ := axfr_flat o v z0 ser hb
+  exact ⟨s', hf, hd⟩
+
+theorem axfr_style_accepted (o : Name) (v : Version) (z0 : Zone) (b : Nat) (hb : BodyOk o v.body)
+    (hne : v.body ≠ []) (hs1 : v.soa.serial ≠ b) (hs2 : serialLt v.soa.serial b = false) :
+    Accepted ⟨some o, ixfrType, some b, false⟩ z0 (axfrStream o v) := by
+  obtain ⟨s', hf, hd, _⟩ := axfr_style_flat o v z0 b hb hne hs1 hs2
+  exact ⟨s', hf, hd⟩
+
+theorem ixfr_accepted (o : Name) (v0 : Version) (vs : List Version) (z0 : Zone)
+    (hne : vs ≠ []) (hz0 : z0 ≃z zoneOf o v0) (hv0 : WfVersion o v0) (hvs : ∀ v ∈ vs, WfVersion o v)
+    (hdist : ∀ v ∈ (v0 :: vs).dropLast, v.soa ≠ (lastVersion v0 vs).soa)
+    (hs1 : (lastVersion v0 vs).soa.serial ≠ v0.soa.serial)
+    (hs2 : serialLt (lastVersion v0 vs).soa.serial v0.soa.serial = false) :
+    Accepted ⟨some o, ixfrType, some v0.soa.serial, false⟩ z0 (ixfrStream o v0.soa (diffSteps v0 vs)) := by
+  have hl := lastSoa_diffSteps vs v0
+  have hsteps : diffSteps v0 vs ≠ [] := by cases vs <;> simp_all [diffSteps]
+  have hok := stepsOk_diff (dn := (lastVersion v0 vs).soa) vs v0 z0 hz0 hv0 hvs hdist
+  exact ⟨_, ixfr_flat o v0.soa (diffSteps v0 vs) z0 false hsteps (by rw [hl]; exact hs1) (by rw [hl]; exact hs2)
+    (by rw [hl]; exact hok.1), rfl⟩
+
+/-- **Ends early / truncated / final SOA dropped**: only the first `k` records of an accepted stream
+arrive (any `k` short of the whole, any division into messages): the run raises (end of stream) and the
+zone is exactly the zone before. -/
+theorem fault_truncate (fix : Bool) (c : Config) (z0 : Zone) (recs : List RRset) (k : Nat) (msgs : List Msg)
+    (hu : c.isUdp = false) (hacc : Accepted c z0 recs) (hk : k < recs.length)
+    (hc : Chunks c (recs.take k) msgs) :
+    run fix c z0 msgs = ⟨some .EOF, z0⟩ := by
+  obtain ⟨s', hf, _⟩ := hacc
+  apply both_variants_err
+  cases k with
+  | zero =>
+    have hm : msgs = [] := by
+      cases msgs with
+      | nil => rfl
+      | cons m ms =>
+        have h1 := hc.first m (by simp)
+        have h2 := hc.flat
+        simp at h2
+        exact absurd h2.1 h1
+    subst hm
+    unfold flatRun at hf
+    unfold run
+    cases hi : Inbound.init c.origin z0 c.rdtype c.serial c.isUdp with
+    | error e => rw [hi] at hf; cases hf
+    | ok s0 => simp [runLoop, (init_props hi).2.2.2.1]
+  | succ k =>
+    obtain ⟨s'', h2, hd2⟩ := flatRun_take (k + 1) hf (by omega) hk
+    exact run_of_flat_eof hu hc h2 hd2
+
+/-- **Non-zero rcode / wrong question** on any message of any division of an accepted stream (a message
+that is read: records are still due when it arrives): the run raises `TransferError` resp. `FormError`
+and the zone is exactly the zone before. -/
+theorem fault_header (fix : Bool) (c : Config) (o : Name) (z0 : Zone) (recs : List RRset)
+    (pre post : List Msg) (m m' : Msg) (e : XErr)
+    (hu : c.isUdp = false) (ho : c.origin = some o) (hacc : Accepted c z0 recs)
+    (hc : Chunks c recs (pre ++ m :: post)) (htail : (m :: post).flatMap (·.answer) ≠ [])
+    (he : headerErrOf o c.rdtype m' = some e) :
+    run fix c z0 (pre ++ m' :: post) = ⟨some e, z0⟩ := by
+  obtain ⟨s', hf, _⟩ := hacc
+  exact both_variants_err (run_header_fault hu ho hc hf htail he) fix
+
+/-- the two header faults are instances: -/
+theorem fault_header_rcode (o : Name) (t : Nat) (m : Msg) (h : m.rcode ≠ 0) :
+    headerErrOf o t m = some .TransferError := by
+  simp [headerErrOf, h]
+
+theorem fault_header_question (o : Name) (t : Nat) (m : Msg) (q : Name × Nat) (rest : List (Name × Nat))
+    (hr : m.rcode = 0) (hq : m.question = q :: rest) (hbad : q.1 ≠ o ∨ q.2 ≠ t) :
+    headerErrOf o t m = some .FormError := by
+  unfold headerErrOf
+  rw [hq]
+  rcases hbad with h | h
+  · simp [hr, h]
+  · by_cases h1 : q.1 = o <;> simp [hr, h, h1]
+
+/-- **Surplus after the final SOA in the same message** (any division of an accepted stream, any rrsets
+appended to the message that holds the final SOA).  Repaired code: `FormError`, zone exactly as before.
+Shipped code: the same `FormError`, *after* the transfer was committed (D11). -/
+theorem fault_surplus_after_final_soa (c : Config) (z0 : Zone) (recs : List RRset) (pre : List Msg) (m : Msg)
+    (extra : List RRset) (s' : Inbound)
+    (hu : c.isUdp = false) (hf : flatRun c z0 recs = .ok s') (hd : s'.done = true)
+    (hc : Chunks c recs (pre ++ [m])) (hm : m.answer ≠ []) (hx : extra ≠ []) :
+    run true c z0 (pre ++ [{ m with answer := m.answer ++ extra }]) = ⟨some .FormError, z0⟩ ∧
+      run false c z0 (pre ++ [{ m with answer := m.answer ++ extra }]) = ⟨some .FormError, s'.zone⟩ := by
+  have h := run_surplus_shipped hu hc hf hd hm hx
+  exact ⟨repaired_of_shipped_formError h, h⟩
+
+/-- **Wrong base serial**: a valid IXFR response for a chain that starts at `cur`, received by a client
+that asked for a different serial `b` (and is neither up to date nor ahead): the run raises
+(`FormError`, base serial mismatch) at the first difference sequence, whatever the division into
+messages; the zone is exactly the zone before. -/
+theorem fault_wrong_base_serial (fix : Bool) (o : Name) (cur : Rdata) (steps : List Step) (z0 : Zone) (b : Nat)
+    (msgs : List Msg) (hne : steps ≠ []) (hcur : cur ≠ lastSoa cur steps)
+    (hb1 : b ≠ cur.serial) (hb2 : (lastSoa cur steps).serial ≠ b) (hb3 : serialLt (lastSoa cur steps).serial b = false)
+    (hc : Chunks ⟨some o, ixfrType, some b, false⟩ (ixfrStream o cur steps) msgs) :
+    run fix ⟨some o, ixfrType, some b, false⟩ z0 msgs = ⟨some .FormError, z0⟩ := by
+  apply both_variants_err
+  cases steps with
+  | nil => exact absurd rfl hne
+  | cons st rest =>
+    have hshape : ixfrStream o cur (st :: rest) =
+        soaRR o (lastSoa cur (st :: rest)) :: ([] ++ soaRR o cur ::
+          (st.dels.map single ++ (soaRR o st.soa :: (st.adds.map single ++ ixfrSteps o st.soa rest)) ++
+            [soaRR o (lastSoa cur (st :: rest))])) := by
+      simp [ixfrStream, ixfrSteps]
+    rw [hshape] at hc
+    have h0 : Inbound.init (some o) z0 ixfrType (some b) false =
+        .ok ⟨o, ixfrType, true, some b, false, none, false, false, false, none, z0⟩ := by
+      simp [Inbound.init]
+    have hf : flatRun ⟨some o, ixfrType, some b, false⟩ z0 (soaRR o (lastSoa cur (st :: rest)) :: []) =
+        .ok (mid o ixfrType true (some b) false (soaRR o (lastSoa cur (st :: rest))) true false ⟨z0, false⟩ z0) := by
+      unfold flatRun
+      simp only [h0]
+      simp [firstSoa, openTxn, writer, mid, hb2, hb3, procAnswers]
+    refine run_of_flat_raises rfl hc hf rfl ?_
+    have hfin : isFinalSoa (mid o ixfrType true (some b) false (soaRR o (lastSoa cur (st :: rest))) true false ⟨z0, false⟩ z0)
+        (soaRR o cur) = false := by
+      simp [isFinalSoa, eqFirst, mid, rrsetEq_soaRR, hcur]
+    unfold procRRset
+    simp only [hfin]
+    have : cur.serial ≠ b := fun h => hb1 h.symm
+    simp [mid, procOtherSoa, nextDm, this]
+
+/-- **AXFR that does not start with the SOA** (first SOA dropped, or swapped with the record after it):
+`FormError`, zone exactly as before. -/
+theorem fault_axfr_first_not_soa (fix : Bool) (o : Name) (z0 : Zone) (ser : Option Nat) (m0 : Msg) (ms : List Msg)
+    (rr0 : RRset) (rest0 : List RRset) (hr : m0.rcode = 0) (hq : m0.question = [])
+    (ha : m0.answer = rr0 :: rest0) (hns : rr0.rdtype ≠ soaType ∨ rr0.owner ≠ o) :
+    run fix ⟨some o, axfrType, ser, false⟩ z0 (m0 :: ms) = ⟨some .FormError, z0⟩ := by
+  have h0 : Inbound.init (some o) z0 axfrType ser false =
+      .ok ⟨o, axfrType, false, ser, false, none, false, false, false, none, z0⟩ := by
+    simp [Inbound.init, axfrType, ixfrType]
+  refine run_first_err (z := z0) h0 (by simp [headerErr, headerErrOf, hr, hq]) ha ?_
+  unfold firstSoa
+  by_cases h1 : rr0.owner = o
+  · have h2 : rr0.rdtype ≠ soaType := hns.elim id (fun h => absurd h1 h)
+    simp [openTxn, h1, h2]
+  · simp [openTxn, h1]
+
+/-- **A deletion sent twice** (IXFR, first difference sequence, any position `j`): the second copy cannot
+be exact — `DeleteNotExact`, zone exactly as before — whatever the division into messages. -/
+theorem fault_duplicate_deletion (fix : Bool) (o : Name) (cur : Rdata) (st : Step) (rest : List Step) (z0 : Zone)
+    (j : Nat) (d : RR) (tail : List RRset) (msgs : List Msg)
+    (hok : StepsOk o (lastSoa cur (st :: rest)) cur z0 (st :: rest)) (hj : st.dels[j]? = some d)
+    (hs1 : (lastSoa cur (st :: rest)).serial ≠ cur.serial)
+    (hs2 : serialLt (lastSoa cur (st :: rest)).serial cur.serial = false)
+    (hc : Chunks ⟨some o, ixfrType, some cur.serial, false⟩
+      (soaRR o (lastSoa cur (st :: rest)) ::
+        ((soaRR o cur :: (st.dels.take (j + 1)).map single) ++ single d :: tail)) msgs) :
+    run fix ⟨some o, ixfrType, some cur.serial, false⟩ z0 msgs = ⟨some .DeleteNotExact, z0⟩ := by
+  apply both_variants_err
+  obtain ⟨hne, hdel, hnd, _, _⟩ := hok
+  have hsub : ∀ r ∈ st.dels.take (j + 1), r ∈ st.dels := fun r hr => List.mem_of_mem_take hr
+  obtain ⟨c1, h1⟩ := mid_dels (fix := false) (o := o) (t := ixfrType) (ser := some cur.serial) (udp := false)
+    (f := soaRR o (lastSoa cur (st :: rest))) (z := z0) (st.dels.take (j + 1)) ⟨z0, false⟩
+    (fun r hr => hdel r (hsub r hr)) (hnd.sublist (List.take_sublist _ _))
+  have h0 : Inbound.init (some o) z0 ixfrType (some cur.serial) false =
+      .ok ⟨o, ixfrType, true, some cur.serial, false, none, false, false, false, none, z0⟩ := by
+    simp [Inbound.init]
+  have hfs : firstSoa (openTxn ⟨o, ixfrType, true, some cur.serial, false, none, false, false, false, none, z0⟩)
+      (soaRR o (lastSoa cur (st :: rest))) false =
+      .ok (mid o ixfrType true (some cur.serial) false (soaRR o (lastSoa cur (st :: rest))) true false ⟨z0, false⟩ z0) := by
+    simp [firstSoa, openTxn, writer, mid, hs1, hs2]
+  have hf : flatRun ⟨some o, ixfrType, some cur.serial, false⟩ z0
+      (soaRR o (lastSoa cur (st :: rest)) :: (soaRR o cur :: (st.dels.take (j + 1)).map single)) =
+      .ok (mid o ixfrType true (some cur.serial) false (soaRR o (lastSoa cur (st :: rest))) false true
+        ⟨delAll z0 (st.dels.take (j + 1)), c1⟩ z0) := by
+    unfold flatRun
+    simp only [h0, hfs]
+    rw [procAnswers, mid_delstart hne rfl]
+    simp only []
+    exact h1
+  refine run_of_flat_raises rfl hc hf rfl ?_
+  have hdm : d ∈ st.dels.take (j + 1) := by
+    rw [List.mem_take_iff_getElem]
+    have hjl : j < st.dels.length := by
+      rcases Nat.lt_or_ge j st.dels.length with h | h
+      · exact h
+      · rw [List.getElem?_eq_none h] at hj; cases hj
+    refine ⟨j, by omega, ?_⟩
+    rw [List.getElem?_eq_getElem hjl] at hj
+    exact Option.some.inj hj
+  have hdd := hdel d (hsub d hdm)
+  have hnot : d ∉ delAll z0 (st.dels.take (j + 1)) := fun h => ((mem_delAll _ _ _).1 h).2 hdm
+  have h1' : (single d).rdtype ≠ soaType := hdd.1
+  have h2' : isSubdomain (single d).owner o = true := hdd.2.1
+  simp [mid, procRRset, h1', fallbackState, fallbackTxn, procData, h2', txnDeleteExact, recsOf_single, hnot]
+  simp [single]
+
+/-! ## RFC 1982 comparison and the query helpers -/
+
+/-- `Serial(a) < b` is irreflexive and asymmetric (RFC 1982 §3.2), so "went backwards" and "is ahead"
+exclude each other -/
+theorem serialLt_asymm (a b : Nat) : serialLt a b = true → serialLt b a = false := by
+  unfold serialLt two32 two31
+  simp only [Bool.or_eq_true, Bool.and_eq_true, decide_eq_true_eq, Bool.or_eq_false_iff, Bool.and_eq_false_iff,
+    decide_eq_false_iff_not]
+  omega
+
+/-- a server that is `k` increments ahead, `0 < k < 2^31`, is never "behind" — also across the wrap at 2^32 -/
+theorem serialLt_ahead (a k : Nat) (hk : 0 < k) (hk2 : k < 2147483648) :
+    serialLt ((a + k) % 4294967296) a = false ∧ (a + k) % 4294967296 ≠ a % 4294967296 := by
+  unfold serialLt two32 two31
+  simp only [Bool.or_eq_false_iff, Bool.and_eq_false_iff, decide_eq_false_iff_not]
+  omega
+
+/-- `extract_serial_from_query(make_query(zone, serial)[0])` is the serial `make_query` announces -/
+theorem extract_of_make (origin : Option Name) (z : Zone) (ser : Option Int) (t : Nat) (s : Option Nat)
+    (h : makeQuery origin z ser = .ok (t, s)) : extractSerial t s = .ok s := by
+  unfold makeQuery at h
+  repeat' split at h
+  all_goals first
+    | (cases h; done)
+    | (cases h; simp [extractSerial, axfrType, ixfrType])
 
 /-! ## non-vacuity -/
 
